@@ -99,7 +99,23 @@ def det_functions():
         ("scan", lambda x, y: jax.lax.scan(lambda c, v: (c + v, c * v), jnp.sum(y), x.reshape(-1))[1], 2),
         ("cond", lambda x, y: jax.lax.cond(jnp.sum(x) > jnp.sum(y), lambda: x * 2.0, lambda: x - 1.0), 2),
         ("pytree", lambda x, y: {"u": x + 1.0, "v": (y * 3.0, jnp.sum(x))}, 2),
+        # control flow handled by the ModularVmap interpreter's own scan / cond branches
+        ("scan_reverse", lambda x, y: jax.lax.scan(lambda c, v: (c * 0.5 + v, c - v), jnp.sum(y), x.reshape(-1), reverse=True), 2),
+        ("scan_carry_pytree", lambda x, y: jax.lax.scan(lambda c, v: ((c[0] + v, c[1] * 0.5 + c[0]), c[1] - v),
+                                                        (jnp.sum(y), jnp.float32(1.0)), x.reshape(-1)), 2),
+        ("scan_length_only", lambda x, y: jax.lax.scan(lambda c, _: (c * 0.5 + jnp.sum(x), c), jnp.sum(y), None, length=3), 2),
+        ("scan_unroll", lambda x, y: jax.lax.scan(lambda c, v: (c + v, c * v), jnp.sum(y), x.reshape(-1), unroll=2)[1], 2),
+        ("fori_loop", lambda x, y: jax.lax.fori_loop(0, 3, lambda i, c: c * 0.5 + x.reshape(-1)[i], jnp.sum(y)), 2),
+        ("cond_in_scan", lambda x, y: jax.lax.scan(lambda c, v: (jax.lax.cond(v > c, lambda: c + v, lambda: c - 1.0), c), jnp.sum(y) * 0.1,
+                                                   x.reshape(-1))[1], 2),
+        ("switch3", lambda x, y: jax.lax.switch(jnp.asarray(jnp.sum(x) > 20.0, jnp.int32) + jnp.asarray(jnp.sum(y) > 4.0, jnp.int32),
+                                                [lambda: x * 2.0, lambda: x - 1.0, lambda: x * 0.0]), 2),
+        ("nested_scan", lambda x, y: jax.lax.scan(lambda c, row: (c + jax.lax.scan(lambda d, v: (d + v, d), 0.0, row, reverse=True)[0], c),
+                                                  jnp.sum(y), x)[1], 2),
     ]
+
+
+COUNTER = [0]
 
 
 def tree_equal(a, b):
@@ -113,8 +129,10 @@ def flag_case(rng):
     n = rng.choice([2, 3])
     c = {"kind": "flag"}
     try:
-        if r < 0.4:
-            name, f, _ = rng.choice(det_functions())
+        if r < 0.5:
+            fs = det_functions()
+            COUNTER[0] += 1
+            name, f, _ = fs[COUNTER[0] % len(fs)]          # every template in turn
             ax0 = rng.choice([0, 1, -1, None])
             ax1 = rng.choice([0, None]) if ax0 is not None else 0
             shx = [2, 3]
@@ -126,7 +144,7 @@ def flag_case(rng):
             got = modular_vmap(f, in_axes=(ax0, ax1))(x, y)
             want = jax.vmap(f, in_axes=(ax0, ax1))(x, y)
             c["ok"] = tree_equal(got, want)
-        elif r < 0.6:
+        elif r < 0.65:
             # density site: batched density equals the per-lane densities stacked
             ax = rng.choice([0, 1])
             v = ids((n, 2)) * 0.25 if ax == 0 else (ids((n, 2)) * 0.25).T
@@ -138,16 +156,17 @@ def flag_case(rng):
             c["ok"] = bool(got.shape == (n, 2) and jnp.allclose(got, jnp.stack(rows), atol=1e-6))
         elif r < 0.8:
             # nested modular_vmap / scan / cond around an echo site: same pairing and layout as jax.vmap
-            kind = rng.choice(["nested", "scan", "cond"])
+            kind = rng.choice(["nested", "scan", "cond", "scan_reverse"])
             c["what"] = f"site-in:{kind}"
             x = ids((n, 2))
             y = ids((2,), 1.0)
             if kind == "nested":
                 f = lambda a, b: modular_vmap(lambda aa, bb: pecho(aa, bb), in_axes=(0, 0))(a, b)  # noqa: E731
                 g = lambda a, b: jax.vmap(lambda aa, bb: _pecho(None, aa, bb), in_axes=(0, 0))(a, b)  # noqa: E731
-            elif kind == "scan":
-                f = lambda a, b: jax.lax.scan(lambda c0, t: (c0 + 1.0, pecho(t[0] + c0, t[1])), 0.0, (a, b))[1]  # noqa: E731
-                g = lambda a, b: jax.lax.scan(lambda c0, t: (c0 + 1.0, _pecho(None, t[0] + c0, t[1])), 0.0, (a, b))[1]  # noqa: E731
+            elif kind in ("scan", "scan_reverse"):
+                rv = kind == "scan_reverse"
+                f = lambda a, b: jax.lax.scan(lambda c0, t: (c0 * 2.0 + 1.0, pecho(t[0] + c0, t[1])), 0.0, (a, b), reverse=rv)[1]  # noqa: E731
+                g = lambda a, b: jax.lax.scan(lambda c0, t: (c0 * 2.0 + 1.0, _pecho(None, t[0] + c0, t[1])), 0.0, (a, b), reverse=rv)[1]  # noqa: E731
             else:
                 f = lambda a, b: jax.lax.cond(jnp.sum(a) > 4.0, lambda: pecho(a, b), lambda: pecho(b, a))  # noqa: E731
                 g = lambda a, b: jax.lax.cond(jnp.sum(a) > 4.0, lambda: _pecho(None, a, b), lambda: _pecho(None, b, a))  # noqa: E731
@@ -176,6 +195,7 @@ def flag_case(rng):
 def main():
     out, sd, n = sys.argv[1], int(sys.argv[2]), int(sys.argv[3])
     rng = random.Random(sd)
+    COUNTER[0] = sd * 4          # shards start at different templates
     cases = []
     for i in range(n):
         cases.append(sample_case(rng) if i % 2 == 0 else flag_case(rng))
